@@ -9,6 +9,7 @@ mod purity;
 mod recorder;
 mod rng;
 mod schemas;
+mod transform;
 mod valcases;
 
 use serde_json::json;
